@@ -56,7 +56,6 @@ impl TokenInner {
 
 //@ open src/token.rs / impl TokenInner
 //@ item src/token.rs / impl TokenInner / fn new props=C20,C01 ret=r
-//@ rw R2 1 <<|_| ()>> => <<|_e| ()>>
 //@ spec
         ensures
             id <= 0xFFFF_FFFF ==> r is Ok && r->Ok_0.sid() == id && r->Ok_0.sver() == 0 && r->Ok_0.ssub() == 0,
